@@ -1,6 +1,7 @@
 package props
 
 import (
+	"bytes"
 	"context"
 	"fmt"
 	"os"
@@ -9,6 +10,7 @@ import (
 	"sort"
 	"strings"
 	"time"
+	"verifharness/internal/refmodel"
 
 	"github.com/glebziz/fs_db"
 	"github.com/glebziz/fs_db/pkg/verif"
@@ -718,15 +720,22 @@ func c17Regain(tier string, seed int64, idx int, scratch string) rt.CaseResult {
 	var c rt.CaseResult
 	rng := seqrun.Rng(seed, "C17r", idx)
 	nroots := 1 + idx%2
-	const eff = 100
-	env, err := dbx.Open(dbx.Options{Mode: dbx.Inline, Dir: filepath.Join(scratch, "db"), Roots: nroots, MaxDirCount: eff, MaxDirExplicit: true})
+	eff := 100
+	eo := dbx.Options{Mode: dbx.Inline, Dir: filepath.Join(scratch, "db"), Roots: nroots, MaxDirCount: 100, MaxDirExplicit: true}
+	if idx%3 == 2 {
+		// the server application takes the directory limit as configured (it does not raise small
+		// limits the way inline.Open does): directories of 1, 5, 7 and 12 entries
+		eff = []int{5, 1, 7, 12}[idx/3%4]
+		eo.Mode, eo.NoValid, eo.MaxDirCount = dbx.Grpc, true, uint64(eff)
+	}
+	env, err := dbx.Open(eo)
 	if err != nil {
 		c.Violate("open-failed", err.Error(), nil)
 		return c
 	}
 	r := seqrun.NewRunner(env, seqrun.Options{})
 	defer func() { r.Env.Close() }()
-	cfgName := fmt.Sprintf("regain/roots=%d", nroots)
+	cfgName := fmt.Sprintf("regain/%s/roots=%d/limit=%d", modeName(eo.Mode), nroots, eff)
 	replay := map[string]any{"seed": seed, "case": idx, "config": cfgName}
 	nk, step := 0, 0
 	dirOf := map[string]string{} // key -> directory of its content file (learned from the walks)
@@ -788,6 +797,13 @@ func c17Regain(tier string, seed int64, idx int, scratch string) rt.CaseResult {
 	cycles := tierN(tier, 3, 5)
 	lastRegained := map[string]int{}
 	for cycle := 0; cycle < cycles; cycle++ {
+		// a file from Create that stays open (nothing written yet) while the directories fill up
+		// and rotate; it is written and closed after the fill
+		held, herr := r.Env.DB.Create(ctxBg, fmt.Sprintf("held%d", cycle))
+		if herr != nil {
+			c.Violate("create-failed role=regain", herr.Error(), replay)
+			return c
+		}
 		// fill: write until every existing directory is full and a fresh one has been started
 		for round := 0; round < 40; round++ {
 			if !add(25) {
@@ -808,6 +824,19 @@ func c17Regain(tier string, seed int64, idx int, scratch string) rt.CaseResult {
 			if full >= 2*nroots && open <= nroots && round >= 2 {
 				break
 			}
+		}
+		hv := seqrun.Content(fmt.Sprintf("r%d-held%d", idx, cycle), 9)
+		_, herr = held.Write(hv)
+		if cerr := held.Close(); herr == nil {
+			herr = cerr
+		}
+		if herr != nil {
+			c.Violate("create-write-close-error role=regain", fmt.Sprintf("a file that was open while %d keys were written: %v", nk, herr), replay)
+			return c
+		}
+		if b, gerr := r.Env.DB.Get(ctxBg, fmt.Sprintf("held%d", cycle)); gerr != nil || !bytes.Equal(b, hv) {
+			c.Violate("stored-content-differs role=regain", fmt.Sprintf("the file that was open during the fill reads %s (%v)", seqrun.Describe(b), gerr), replay)
+			return c
 		}
 		if cnt, ok := counts(); !ok {
 			return c
@@ -879,7 +908,10 @@ func c17Regain(tier string, seed int64, idx int, scratch string) rt.CaseResult {
 		}
 		_ = dirOf
 	}
-	// everything written is still readable
+	// everything written is still readable (the held files are known to the harness only)
+	for cycle := 0; cycle < cycles; cycle++ {
+		r.M.Write(refmodel.Autocommit, fmt.Sprintf("held%d", cycle), string(seqrun.Content(fmt.Sprintf("r%d-held%d", idx, cycle), 9)), false)
+	}
 	if m := r.ProbeAll(step, seqrun.Step{Op: "getkeys", Actor: -1}); m != nil {
 		c.Violate(m.Sig, m.Error(), replay)
 		return c
